@@ -384,16 +384,44 @@ def _exchange_code_for_token(
 # ---------------------------------------------------------------------------
 
 
+def _has_unsafe_url_chars(url: str) -> bool:
+    """Return True unless *url* is made only of printable ASCII other than backslash.
+
+    Browsers (WHATWG URL) strip tabs/newlines, trim control characters and spaces,
+    and treat a backslash like ``/`` in http(s) URLs; ``urllib.parse`` does none of that
+    consistently.  A redirect target containing any such character is refused so
+    that both parsers see the same authority and path.
+    """
+    return any(ch <= " " or ch >= "\x7f" or ch == "\\" for ch in url)
+
+
+# Path segments that a browser removes or resolves while parsing (WHATWG "dot segments").
+_DOT_SEGMENTS: frozenset[str] = frozenset((".", "..", "%2e", ".%2e", "%2e.", "%2e%2e"))
+
+
 def _validate_original_url(url: str, prefix: str) -> str:
-    """Validate the original URL is relative and within the expected prefix."""
+    """Validate the original URL is a same-origin absolute path within the expected prefix."""
+    fallback = prefix or "/"
     if len(url) > _MAX_ORIGINAL_URL_LEN:
         url = url[:_MAX_ORIGINAL_URL_LEN]
-    parsed = urlparse(url)
+    if _has_unsafe_url_chars(url):
+        return fallback
+    try:
+        parsed = urlparse(url)
+    except ValueError:
+        return fallback
     if parsed.scheme or parsed.netloc:
         # Not a relative URL — fall back to the prefix root
-        return prefix or "/"
+        return fallback
+    # Must be an absolute path; "//host" would be a scheme-relative URL for a browser
+    if not url.startswith("/") or url.startswith("//"):
+        return fallback
+    # A browser would resolve "." / ".." segments, possibly leaving the prefix
+    path = url.split("#", 1)[0].split("?", 1)[0]
+    if any(segment.lower() in _DOT_SEGMENTS for segment in path.split("/")):
+        return fallback
     if prefix and not url.startswith(prefix):
-        return prefix or "/"
+        return fallback
     return url
 
 
@@ -405,34 +433,45 @@ def _is_localhost(hostname: str) -> bool:
 # Default origins allowed for _vgi_return_to redirects.
 _DEFAULT_ALLOWED_RETURN_ORIGINS: frozenset[str] = frozenset(("https://cupola.query-farm.services",))
 
+_DEFAULT_PORTS: dict[str, int] = {"http": 80, "https": 443}
+
 
 def _validate_return_to(url: str, allowed_origins: frozenset[str] = frozenset()) -> str:
     """Validate an external return-to URL against an origin allowlist.
 
-    Returns the URL if it matches an allowed origin or is localhost,
-    otherwise returns empty string.  Only the scheme and host (ignoring
-    port for localhost) are checked — any path is permitted.
+    Returns the URL if its origin (scheme, host and port) is in the allowlist
+    or it is an ``http`` localhost URL (any port), otherwise returns empty
+    string.  Any path is permitted.  The authority must be plain
+    ``host[:port]`` — userinfo, bracketed hosts and characters that browsers
+    parse differently from ``urllib.parse`` are refused.
     """
     if not url or len(url) > 2048:
         return ""
-    parsed = urlparse(url)
+    if _has_unsafe_url_chars(url):
+        return ""
+    try:
+        parsed = urlparse(url)
+        port = parsed.port
+    except ValueError:
+        return ""
     if parsed.scheme not in ("http", "https"):
         return ""
     if not parsed.netloc:
         return ""
-    # localhost with any port is always allowed
+    # The authority must be plain host[:port]: no userinfo, no bracketed host
+    if any(ch in "@[]" for ch in parsed.netloc):
+        return ""
     hostname = parsed.hostname or ""
+    # localhost with any port is always allowed
     if _is_localhost(hostname) and parsed.scheme == "http":
         return url
-    # Check against allowlist (scheme + host, ignoring path)
-    origin = f"{parsed.scheme}://{parsed.hostname}"
+    # Check against allowlist (scheme + host + port, ignoring path)
+    if port is None or port == _DEFAULT_PORTS[parsed.scheme]:
+        origin = f"{parsed.scheme}://{hostname}"
+    else:
+        origin = f"{parsed.scheme}://{hostname}:{port}"
     if origin in allowed_origins:
         return url
-    # Also try with explicit port
-    if parsed.port:
-        origin_with_port = f"{parsed.scheme}://{parsed.hostname}:{parsed.port}"
-        if origin_with_port in allowed_origins:
-            return url
     return ""
 
 
